@@ -51,6 +51,11 @@ def replay(u, obs, prop, seed):
         lines.append('  ' + vf.fmt_ob(o))
     found = False
     rp = u.get('replay')
+    if not rp:
+        # default: the driver's test of the same name as the unit (alias/overlap variants share the base function's test)
+        import re as _re
+        base = _re.sub(r'_(ovl|wu|wv|uv|wuv|ds|an|ad|safety|int)$', '', u['name'])
+        rp = {'mpz_inp_raw': 'raw', 'mpz_inp_raw_p': 'raw', 'mpz_inp_raw_m': 'raw', 'mpz_out_raw': 'raw', 'mpz_out_raw_m': 'raw'}.get(base, base)
     if rp:
         tmp = tempfile.mkdtemp(prefix='mpir-replay.')
         try:
@@ -71,6 +76,8 @@ def replay(u, obs, prop, seed):
                     if p is not None and 'FAIL' in out:
                         found = True
                         break
+                    if p is not None and p.returncode == 3:
+                        lines[-1] = 'no native test for this function in /verif/replay/native.c'
         finally:
             shutil.rmtree(tmp, ignore_errors=True)
     else:
